@@ -3,6 +3,8 @@
 from __future__ import annotations
 
 import uuid
+
+import core
 from fractions import Fraction
 
 import numpy as np
@@ -118,7 +120,13 @@ def _train(case, df, meta, order, shuffle, probe, probe2, tmp, tag, keep_index=F
         p1 = np.asarray(guarded(model.predict, probe, sig="Model.predict"), dtype=float)
         p2 = np.asarray(guarded(model.predict, probe2, sig="Model.predict"), dtype=float)
         p1b = np.asarray(guarded(model.predict, probe, sig="Model.predict"), dtype=float)
-        path = tmp / f"model_{tag}.pkl"
+        # history: one file name for every model of this process, and another (unfitted) model was saved to and loaded
+        # from it just before - the loaded model must be the one that was saved last
+        shared = core.scratch_root() / "c12_shared"
+        shared.mkdir(exist_ok=True)
+        path = shared / "model.pkl"
+        guarded(mokapot.Model(recorder.Centroid(log=logname, iface=case["iface"]), scaler="as-is").save, path, sig="Model.save")
+        guarded(mokapot.load_model, path, sig="load_model")
         guarded(model.save, path, sig="Model.save")
         loaded = guarded(mokapot.load_model, path, sig="load_model")
         p3 = np.asarray(guarded(loaded.predict, probe, sig="Model.predict"), dtype=float)
@@ -135,6 +143,10 @@ def _train(case, df, meta, order, shuffle, probe, probe2, tmp, tag, keep_index=F
 
 def check(case):
     import mokapot
+
+    if case.get("kind") == "large-collection":
+        n = _big_case(case["seed"], case["n_spectra"], case["order"])
+        return {"nontrivial": True, "classes": ["large-collection-" + case["order"]], "counters": {"large_collection_rows": n}}
 
     df, meta = datagen.psm_frame(case["seed"], case["mults"], key_arity=2, n_noise=case["n_noise"], sep=3.0, with_rid=True,
                                  label_enc="bool")
@@ -273,3 +285,58 @@ def check(case):
         classes.append("feature-names-differ-in-case-only")
     nontrivial = case["max_iter"] >= 2 and not np.array_equal(perm, ident)
     return {"nontrivial": nontrivial, "classes": classes, "counters": counters}
+
+
+# ---------------------------------------------------------------------------
+def _big_case(seed, n_spectra, order_kind):
+    """One collection beyond 100 000 PSMs, default (data-learning) scaler: the model must not depend on the row order."""
+    import mokapot
+
+    rng = np.random.default_rng(seed)
+    mults = [int(x) for x in rng.integers(1, 3, size=n_spectra)]
+    df, meta = datagen.psm_frame(seed, mults, key_arity=2, n_noise=2, sep=3.0, with_rid=True, label_enc="bool")
+    feats = meta["features"]
+    n = len(df)
+    tg = np.asarray(meta["is_target"], dtype=bool)
+    orders = {"targets-first": np.argsort(~tg, kind="stable"), "by-feature": np.argsort(-df[feats[0]].to_numpy(), kind="stable"),
+              "permuted": rng.permutation(n)}
+    pdf = df.iloc[:200].reset_index(drop=True)
+    probe = mokapot.LinearPsmDataset(pdf, "Label", meta["key_cols"], "Peptide", "Proteins", feature_columns=feats, enforce_checks=False)
+    preds = {}
+    for tag in ("permuted", order_kind):
+        d = df.iloc[orders[tag]].reset_index(drop=True)
+        ds = mokapot.LinearPsmDataset(d, target_column="Label", spectrum_columns=meta["key_cols"], peptide_column="Peptide",
+                                      protein_column="Proteins", feature_columns=feats, copy_data=True)
+        logname = "c12big_" + uuid.uuid4().hex
+        recorder.new_log(logname)
+        try:
+            model = mokapot.Model(recorder.Centroid(log=logname, iface="df"), train_fdr=0.05, max_iter=2, override=True, rng=seed % 1000)
+            guarded(model.fit, ds, sig="Model.fit")
+            preds[tag] = np.asarray(guarded(model.predict, probe, sig="Model.predict"), dtype=float)
+        finally:
+            recorder.drop_log(logname)
+    a, b = preds["permuted"], preds[order_kind]
+    scale = float(np.std(a)) or 1.0
+    require(bool(np.allclose(a, b, rtol=0, atol=1e-7 * scale)), "order-dependence-large-collection",
+            f"{n} PSMs, default scaler: predictions of the model trained on the rows in order '{order_kind}' differ from those of the "
+            f"model trained on permuted rows by {float(np.max(np.abs(a - b))) / scale:.3g} score standard deviations")
+    return n
+
+
+def extra(tier, seed, shard, nshards, stats):
+    """Large collections (size thresholds in the training path): a few per run, one per shard at most."""
+    todo = {"quick": 2, "thorough": 16}[tier]
+    if shard >= todo:
+        return
+    rnd = np.random.default_rng(seed * 7919 + shard)
+    n_spectra = int(rnd.integers(70_000, 95_000))  # x ~1.5 PSMs per spectrum: 105 000 - 143 000 rows
+    kind = ["targets-first", "by-feature"][shard % 2]
+    case = {"kind": "large-collection", "seed": int(rnd.integers(0, 2**31 - 1)), "n_spectra": n_spectra, "order": kind}
+    try:
+        n = _big_case(case["seed"], n_spectra, kind)
+    except core.Violation as v:
+        stats.failure = {"case": case, "signature": v.signature, "message": v.message}
+        return
+    stats.evaluations += 1
+    stats.counters["large_collection_rows"] += n
+    stats.observe(case, {"nontrivial": True, "classes": ["large-collection-" + kind]})
